@@ -463,7 +463,7 @@ func runSCIONServer(ctx context.Context, log *slog.Logger, mtrcs *scionServerMet
 			scionLayer.Path, err = scionLayer.Path.Reverse()
 			if err != nil {
 				log.LogAttrs(ctx, slog.LevelInfo, "failed to reverse path", slog.Any("error", err))
-				updateTXTimestamp(clientID, rxt, &txt0) // no reply: drop the exchange
+				updateTXTimestamp(clientID, rxt, txt0, &txt0) // no reply: drop the exchange
 				continue
 			}
 			// reversing may yield a path of another type (one-hop -> SCION)
@@ -552,7 +552,7 @@ func runSCIONServer(ctx context.Context, log *slog.Logger, mtrcs *scionServerMet
 			err = scionLayer.SerializeTo(buffer, options)
 			if err != nil {
 				log.LogAttrs(ctx, slog.LevelInfo, "failed to encode packet", slog.Any("error", err))
-				updateTXTimestamp(clientID, rxt, &txt0) // no reply: drop the exchange
+				updateTXTimestamp(clientID, rxt, txt0, &txt0) // no reply: drop the exchange
 				continue
 			}
 			buffer.PushLayer(scionLayer.LayerType())
@@ -566,7 +566,7 @@ func runSCIONServer(ctx context.Context, log *slog.Logger, mtrcs *scionServerMet
 			if !ok {
 				txt1 = txt0
 			}
-			updateTXTimestamp(clientID, rxt, &txt1)
+			updateTXTimestamp(clientID, rxt, txt0, &txt1)
 
 			mtrcs.reqsServed.Inc()
 		}
